@@ -244,7 +244,7 @@ class Src:
 LOG_MACROS = [
   r"tracing::trace", r"tracing::debug", r"tracing::info", r"tracing::warn", r"tracing::error",
   r"trace", r"debug", r"info", r"warn", r"error",
-  r"counter", r"log_latency", r"cancel_guard", r"cancel_guard_disarm", r"histogram", r"gauge",
+  r"counter", r"log_latency", r"log_[a-z_]+_diagnostics", r"cancel_guard", r"cancel_guard_disarm", r"histogram", r"gauge",
 ]
 
 
@@ -724,7 +724,7 @@ def extract_fn(gen, f, probe=False):
                       "what": "region `%s` of fn %s wrapped as `%s`; the region text is verbatim, free variables are the wrapper's parameters%s%s" % (
                         f.region_name, f.name, " ".join(f.sig.split()), ("; head: " + " ".join(f.head.split())) if f.head else "", ("; tail: " + " ".join(f.tail.split())) if f.tail else "")})
     ls = ra
-  qual = ("%s::%s" % (re.sub(r"^impl\s+", "", f.emit_impl), f.name)) if f.emit_impl else f.name
+  qual = ("%s::%s" % (re.sub(r"^impl(<[^>]*>)?\s+", "", f.emit_impl).split("<")[0].strip(), f.name)) if f.emit_impl else f.name
   if f.rename:
     qual = f.rename
   # ---- signature normalisation (R5)
